@@ -366,6 +366,14 @@ Definition allowed_diffs : list diff := Eval vm_compute in [
     Structural
     (("Postgres re-clamps the batch it was handed (clampSliceCap), SQLite re-clamps in dequeueCandidateIDsTx "
            ++ "(inside dequeue-select-and-lease)"));
+  mkDiff "dequeue-lease-until-saturation" ["dequeueOnce"]
+    (words ("#if go{now.IsZero()} #assign go{now = s.now()} #end #if go{leaseTTL > 0 && int64(leaseTTL) > math.MaxInt64-now.UnixNano()} "
+           ++ "#assign go{leaseUntil = time.Unix(0, math.MaxInt64).In(now.Location())} #end"))
+    (words "#if go{now.IsZero()} #assign go{now = s.now()} #end")
+    Structural
+    (("SQLite stores lease_until as int64 nanoseconds and saturates now+lease_ttl at the largest representable instant "
+           ++ "(fix ea2d48a: it used to wrap to an already expired lease); Postgres stores a timestamptz, whose range "
+           ++ "(year 294276) covers every time.Time the Go side can produce from now+ttl"));
   mkDiff "dequeue-sweep-throttle" ["dequeueOnce"]
     (words "#if go{s.shouldSweepExpiredLeases(now)} #do:requeueExpiredLeases #end")
     (words "#do:requeueExpiredLeases")
